@@ -815,3 +815,32 @@ Proof.
     unfold run_upto. rewrite Hp. cbn [fst snd]. rewrite app_length. cbn [length].
     assert (E : (n <? length dels + 1)%nat = false) by (apply Nat.ltb_ge; lia). now rewrite E.
 Qed.
+
+(** * A failing SQL statement inside one atomic write = a cut before that write *)
+Theorem statement_fault : forall id s0 (ord1 ord2 : order) (f : write -> bool),
+  pre id s0 -> order_ok ord1 (staged s0 id) -> order_ok ord2 (staged s0 id) ->
+  let s1 := fst (run_write_fault f (tx_commit ord1 id s0) s0) in
+  (forall b, unmoved s0 s1 b \/ landed id s0 s1 b) /\
+  ((txs s1 id = Some InProgress /\
+    exists s2, run_full (tx_commit ord2 id s1) s1 = (s2, ROk) /\ st_eq s2 (all_outcome id s0)) \/
+   (txs s1 id = Some Committed /\ st_eq s1 (all_outcome id s0))).
+Proof.
+  intros id s0 ord1 ord2 f Hpre H1 H2 s1. split.
+  - intro b. apply (branch_consistent id s0 s0 ord1 (cut_index f (fst (tx_commit ord1 id s0))) b Hpre);
+      [constructor | assumption].
+  - apply (rerun_completes id s0 ord1 ord2 (cut_index f (fst (tx_commit ord1 id s0))) Hpre H1 H2).
+Qed.
+
+Theorem statement_fault_discard : forall id s (ord1 ord2 : order) (f : write -> bool),
+  txs s id = Some InProgress -> order_ok ord1 (staged s id) ->
+  let s1 := fst (run_write_fault f (tx_discard ord1 id s) s) in
+  order_ok ord2 (staged s1 id) ->
+  (txs s1 id = Some InProgress /\
+   exists s2, run_full (tx_discard ord2 id s1) s1 = (s2, ROk) /\ staged s2 id = [] /\ txs s2 id = None) \/
+  (txs s1 id = None /\ staged s1 id = []).
+Proof.
+  intros id s ord1 ord2 f Ht H1 s1 H2.
+  destruct (discard_rerun id s ord1 ord2 (cut_index f (fst (tx_discard ord1 id s))) Ht H1 H2) as [H|[Ha [Hb _]]].
+  - left. exact H.
+  - right. split; assumption.
+Qed.
